@@ -34,7 +34,7 @@ def all_seqs(V):
 
 def structs_for(tier):
     cat = catalogue("quick")
-    keep = {"chain3-perm", "triangle", "nested", "isolated", "chain4", "star", "cycle4", "disconnected", "tri+pendant", "cycle5"}
+    keep = {"chain3-perm", "triangle", "nested", "isolated", "chain4", "star", "cycle4", "disconnected", "tri+pendant", "cycle5", "fan"}
     if tier == "thorough":
         keep |= {"chain3", "dup", "single"}
     return [s for s in cat if s["name"] in keep]
